@@ -88,6 +88,8 @@ Definition expected_handle_trzsz : list sk :=
   [Call "newTransfer" "";
    If "connector != nil" [Call "Load" "filter.tunnelConnector"] [Call "connectToTunnel" "transfer"] [];
    Defer [Call "CompareAndSwap" "filter.transfer(transfer,nil)"];
+   (* fix 0263b73: a stop prompt that is still open is closed on every return (o_fixed = true) *)
+   Defer [If "promptPipe != nil" [Call "Load" "filter.promptPipe"] [Call "Close" "promptPipe"] []];
    Go [Defer [Call "close" ""];
        Defer [If "err != nil" [Call "recover" ""] [Call "clientError" "transfer"] []];
        Select [If "'S'" [] [Call "downloadFiles" "filter"] [];
@@ -172,7 +174,7 @@ Section FilterProofs.
   Notation hold_timer := (hold_timer dstate zstate drag_detect).
   Notation drag_verdict := (drag_verdict dstate zstate drag_detect).
   Notation drag_step := (drag_step dstate zstate o).
-  Notation handler_step := (handler_step dstate zstate).
+  Notation handler_step := (handler_step dstate zstate o).
   Notation quiet := (quiet dstate trigger detect zmodem_detect zstate drag_detect o).
   Notation all_quiet := (all_quiet dstate trigger detect trig_prompts zmodem_detect zstate zm_init zm_handle zm_busy zm_stop drag_detect msg_on msg_off is_stop_key o).
       Notation trace_fires := (trace_fires dstate zstate o).
@@ -182,7 +184,7 @@ Section FilterProofs.
   (* be in use (only when drag detection is on)                                            *)
 
   Definition calm (s : state) : Prop :=
-    transfer s = false /\ zmodem s = None /\ prompt s = false /\
+    transfer s = false /\ zmodem s = None /\ prompt s = PNone /\
     interrupting s = false /\ skip_cmd s = false /\
     drag_procs s = [] /\ handlers s = [] /\
     (held s <> None -> detect_on s = true).
@@ -621,7 +623,7 @@ Section FilterProofs.
     (drag_procs s' = drag_procs s \/ drag_procs s' = drag_procs s ++ [DWait]).
   Proof.
     intros s c. unfold Filter.in_step.
-    destruct (prompt s); [cbn; auto|].
+    destruct (p_set (prompt s)); [cbn; auto|].
     destruct (transfer s) eqn:Ht.
     { cbn [fst]. destruct (is_stop_key c && prompts s); [destruct s; cbn in *; auto|auto]. }
     match goal with |- context [if o_zmodem o && ?b then _ else _] => destruct (o_zmodem o && b) end.
@@ -705,20 +707,43 @@ Section FilterProofs.
         rewrite Z. eapply in_remove_nth_other; eauto. discriminate.
   Qed.
 
-  Lemma handler_exit_inv : forall (s : state) i ph, inv s -> nth_error (handlers s) i = Some ph ->
-    inv (handler_exit dstate zstate s i ph).
+  (* the first deferred function of the fixed handleTrzsz: close a stop prompt that is still open *)
+  Definition close_prompt (s : state) : state :=
+    if o_fixed o then match prompt s with POpen => set_prompt PClosing s | _ => s end else s.
+
+  Lemma close_prompt_frame : forall s : state,
+    transfer (close_prompt s) = transfer s /\ interrupting (close_prompt s) = interrupting s /\
+    handlers (close_prompt s) = handlers s /\ drag_procs (close_prompt s) = drag_procs s.
   Proof.
-    intros s i ph (I1 & I2) Hn. unfold handler_exit.
+    intros s. unfold close_prompt. destruct (o_fixed o); auto. destruct (prompt s); auto; destruct s; cbn; auto.
+  Qed.
+
+  Lemma handler_exit_unfold : forall (s : state) i ph,
+    handler_exit dstate zstate o s i ph =
+    (let s1 := set_handlers (remove_nth i (handlers (close_prompt s))) (close_prompt s) in
+     match ph with HOwning => set_transfer false s1 | HChoosing => s1 end).
+  Proof. reflexivity. Qed.
+
+  Lemma handler_exit_core : forall (s : state) i ph,
+    transfer (handler_exit dstate zstate o s i ph) = (match ph with HOwning => false | HChoosing => transfer s end) /\
+    handlers (handler_exit dstate zstate o s i ph) = remove_nth i (handlers s) /\
+    interrupting (handler_exit dstate zstate o s i ph) = interrupting s /\
+    drag_procs (handler_exit dstate zstate o s i ph) = drag_procs s.
+  Proof.
+    intros s i ph. rewrite handler_exit_unfold.
+    pose proof (close_prompt_frame s) as (C1 & C2 & C3 & C4).
+    rewrite <- C1, <- C2, <- C3, <- C4. destruct ph; destruct (close_prompt s); cbn; auto.
+  Qed.
+
+  Lemma handler_exit_inv : forall (s : state) i ph, inv s -> nth_error (handlers s) i = Some ph ->
+    inv (handler_exit dstate zstate o s i ph).
+  Proof.
+    intros s i ph (I1 & I2) Hn.
+    pose proof (handler_exit_core s i ph) as (E1 & E2 & E3 & E4).
     pose proof (owning_remove _ _ _ Hn) as Ho.
-    destruct ph.
-    - split; [|destruct s; cbn in *; auto].
-      assert (X : handlers (set_handlers (remove_nth i (handlers s)) s) = remove_nth i (handlers s) /\
-                  transfer (set_handlers (remove_nth i (handlers s)) s) = transfer s) by (destruct s; cbn; auto).
-      destruct X as (X1 & X2). rewrite X1, X2, Ho, I1. lia.
-    - split; [|destruct s; cbn in *; auto].
-      assert (X : handlers (set_transfer false (set_handlers (remove_nth i (handlers s)) s)) = remove_nth i (handlers s) /\
-                  transfer (set_transfer false (set_handlers (remove_nth i (handlers s)) s)) = false) by (destruct s; cbn; auto).
-      destruct X as (X1 & X2). rewrite X1, X2, Ho, I1. destruct (transfer s); lia.
+    split.
+    - rewrite E1, E2, Ho, I1. destruct ph; [lia|destruct (transfer s); lia].
+    - rewrite E3, E4. exact I2.
   Qed.
 
   Lemma handler_step_inv : forall (s : state) i a, inv s -> inv (fst (handler_step s i a)).
@@ -767,7 +792,7 @@ Section FilterProofs.
   (* every way a session can end leaves the wrapper idle: once the helper goroutines of a
      history have finished, nothing owns the streams any more *)
   Theorem quiescent_idle : forall s : state, inv s ->
-    handlers s = [] -> drag_procs s = [] -> held s = None -> prompt s = false -> zmodem s = None ->
+    handlers s = [] -> drag_procs s = [] -> held s = None -> prompt s = PNone -> zmodem s = None ->
     skip_cmd s = false -> idle s = true.
   Proof.
     intros s (I1 & I2) Hh Hd Hb Hp Hz Hk.
@@ -785,7 +810,8 @@ Section FilterProofs.
     handlers (fst (handler_step s i a)) = remove_nth i (handlers s).
   Proof.
     intros s i a Hi Hn Ha. unfold Filter.handler_step. rewrite Hn.
-    destruct Ha as [Ha|[Ha|[Ha|Ha]]]; subst a; cbn [fst]; unfold handler_exit; destruct s; cbn; auto.
+    pose proof (handler_exit_core s i HOwning) as (E1 & E2 & _).
+    destruct Ha as [Ha|[Ha|[Ha|Ha]]]; subst a; cbn [fst]; auto.
   Qed.
 
   Theorem early_exit_keeps : forall (s : state) i a,
@@ -794,15 +820,16 @@ Section FilterProofs.
     handlers (fst (handler_step s i a)) = remove_nth i (handlers s).
   Proof.
     intros s i a Hn Ha. unfold Filter.handler_step. rewrite Hn.
-    destruct Ha as [Ha|Ha]; subst a; cbn [fst]; unfold handler_exit; destruct s; cbn; auto.
+    pose proof (handler_exit_core s i HChoosing) as (E1 & E2 & _).
+    destruct Ha as [Ha|Ha]; subst a; cbn [fst]; auto.
   Qed.
 
   (* induction over histories of sessions: whatever happened before (any number of sessions,
      ended in any way, any interleaving), once the wrapper is quiescent the two transparency
      theorems apply again *)
-  Theorem after_session : forall es1 es2 (s0 s1 s2 : state) ob1 ob2,
+  Theorem after_session_prompt_closed : forall es1 es2 (s0 s1 s2 : state) ob1 ob2,
     idle s0 = true -> run s0 es1 = (s1, ob1) ->
-    handlers s1 = [] -> drag_procs s1 = [] -> held s1 = None -> prompt s1 = false -> zmodem s1 = None ->
+    handlers s1 = [] -> drag_procs s1 = [] -> held s1 = None -> prompt s1 = PNone -> zmodem s1 = None ->
     skip_cmd s1 = false ->
     all_quiet s1 es2 = true -> run s1 es2 = (s2, ob2) ->
     idle s1 = true /\
@@ -913,6 +940,185 @@ Section FilterProofs.
     destruct (out_step_calm s c s' ob Hc Hq Hs) as (C & T & S & H & _).
     split; [exact T|split; [exact S|]]. apply calm_idle; auto. congruence.
   Qed.
+
+  (* ---------------------------------------------------------------------------------- *)
+  (* the stop prompt (fixed code: every return of handleTrzsz closes a prompt that is      *)
+  (* still open): an OPEN prompt exists only while a transfer owns the streams             *)
+
+  Hypothesis Hfixed : o_fixed o = true.
+
+  Definition pinv (s : state) : Prop := prompt s = POpen -> transfer s = true.
+
+  Lemma trace_log_prompt : forall (s : state) c, prompt (snd (trace_log s c)) = prompt s.
+  Proof.
+    intros s c. unfold Filter.trace_log. destruct (o_trace o); auto.
+    destruct (trace_on s); [destruct (contains trace_disable_marker c)|destruct (contains trace_enable_marker c)];
+      cbn [snd]; auto; destruct s; reflexivity.
+  Qed.
+
+  Lemma out_zmodem_prompt : forall (s : state) c,
+    match out_zmodem s c with inl s' => prompt s' = prompt s | inr (s', _) => prompt s' = prompt s end.
+  Proof.
+    intros s c. unfold Filter.out_zmodem. destruct (o_zmodem o); auto. destruct (zmodem s) as [z|]; auto.
+    destruct (zm_handle z c) as [h z']. destruct h; destruct s; reflexivity.
+  Qed.
+
+  Lemma out_forward_prompt : forall (s : state) pre c, prompt (fst (out_forward s pre c)) = prompt s.
+  Proof.
+    intros s pre c. unfold Filter.out_forward. destruct (interrupting s); auto.
+    set (s1 := if skip_cmd s then set_skip_cmd false s else s).
+    assert (F : prompt s1 = prompt s) by (subst s1; destruct (skip_cmd s); auto; destruct s; reflexivity).
+    match goal with |- context [if ?b then (s1, ?x) else _] => destruct b end; auto.
+    destruct (o_zmodem o && zmodem_detect c); auto. destruct (zmodem s1); auto.
+    all: try (cbn [fst]; rewrite <- F; destruct s1; reflexivity).
+  Qed.
+
+  Lemma out_detect_prompt : forall (s : state) pre c, prompt (fst (out_detect s pre c)) = prompt s.
+  Proof.
+    intros s pre c. unfold Filter.out_detect.
+    destruct (if o_osc52 o then detect_osc52 (osc s) c else (osc s, [])) as [q cl].
+    destruct (detect (det (set_osc q s)) c) as [[b t] d']. destruct t as [t|].
+    - cbn [fst]. destruct s; reflexivity.
+    - rewrite out_forward_prompt. destruct s; reflexivity.
+  Qed.
+
+  Lemma out_step_prompt : forall (s : state) c, prompt (fst (out_step s c)) = prompt s.
+  Proof.
+    intros s c. unfold Filter.out_step. destruct (transfer s); auto.
+    pose proof (trace_log_prompt s c) as T. destruct (trace_log s c) as [b s1]. cbn [snd] in T.
+    pose proof (out_zmodem_prompt s1 b) as Z. destruct (out_zmodem s1 b) as [s2|[s2 pre]].
+    - cbn [fst]. congruence.
+    - rewrite out_detect_prompt. congruence.
+  Qed.
+
+  Lemma reset_drag_prompt : forall s : state, prompt (reset_drag s) = prompt s.
+  Proof. intros s. unfold reset_drag. destruct (dragging s); destruct s; reflexivity. Qed.
+
+  Lemma add_drag_prompt : forall (s : state) fs hd, prompt (add_drag fs hd s) = prompt s.
+  Proof. intros s fs hd. unfold add_drag. destruct (drag_files s); destruct s; reflexivity. Qed.
+
+  Lemma drag_verdict_prompt : forall timer (s : state) b, prompt (fst (drag_verdict timer s b)) = prompt s.
+  Proof.
+    intros timer s b. unfold Filter.drag_verdict.
+    destruct (d_files (drag_detect b)) as [[fs hd]|]; cbn [fst]; [apply add_drag_prompt|].
+    destruct (negb timer && d_win (drag_detect b)); cbn [fst]; [destruct s; reflexivity|].
+    destruct (d_ignore (drag_detect b)); auto using reset_drag_prompt.
+  Qed.
+
+  Lemma in_step_pinv : forall (s : state) c, pinv s -> pinv (fst (in_step s c)).
+  Proof.
+    intros s c Hp. unfold pinv, Filter.in_step.
+    destruct (p_set (prompt s)) eqn:Eps; [exact Hp|].
+    destruct (transfer s) eqn:Ht.
+    - cbn [fst]. intros _. destruct (is_stop_key c && prompts s); [destruct s; cbn in *; auto|auto].
+    - assert (Hn : prompt s = PNone) by (destruct (prompt s); cbn in Eps; congruence).
+      intros X. exfalso. revert X.
+      match goal with |- context [if o_zmodem o && ?b then _ else _] => destruct (o_zmodem o && b) end.
+      { cbn [fst]. destruct (o_zmodem o); [|congruence]. destruct (zmodem s); [|congruence].
+        destruct (list_eqb c [drag_interrupt_byte]); try congruence. all: try (destruct s; cbn in *; congruence). }
+      set (s1 := if o_zmodem o then _ else s).
+      assert (F : prompt s1 = PNone).
+      { subst s1. destruct (o_zmodem o); auto. destruct (zmodem s); auto.
+        destruct (list_eqb c [drag_interrupt_byte]); auto. all: try (destruct s; cbn in *; auto). }
+      destruct (detect_on s1); [|cbn [fst]; congruence].
+      destruct (held s1); [cbn [fst]; destruct s1; cbn in *; congruence|].
+      rewrite drag_verdict_prompt. congruence.
+  Qed.
+
+  Lemma hold_timer_pinv : forall s : state, pinv s -> pinv (fst (hold_timer s)).
+  Proof.
+    intros s Hp. pose proof (hold_timer_frame s) as (F1 & _). unfold pinv. rewrite F1. clear F1.
+    unfold Filter.hold_timer. destruct (held s) as [b|]; [|exact Hp].
+    rewrite drag_verdict_prompt. intros X. apply Hp. destruct s; exact X.
+  Qed.
+
+  Lemma drag_step_pinv : forall (s : state) i, pinv s -> pinv (fst (drag_step s i)).
+  Proof.
+    intros s i Hp. unfold Filter.drag_step.
+    destruct (nth_error (drag_procs s) i) as [[| |]|]; [destruct (dragging s)| | |]; cbn [fst]; auto.
+    all: try (unfold pinv in *; destruct s; cbn in *; auto; fail).
+    pose proof (reset_drag_frame s) as (R1 & _). pose proof (reset_drag_prompt s) as R5.
+    assert (G : forall v (x : state), transfer (set_drag_procs v x) = transfer x /\ prompt (set_drag_procs v x) = prompt x)
+      by (intros v x; destruct x; split; reflexivity).
+    unfold pinv in *. match goal with |- context [set_drag_procs ?v (reset_drag s)] => destruct (G v (reset_drag s)) as (G1 & G2) end.
+    rewrite G1, G2, R1, R5. exact Hp.
+  Qed.
+
+  Lemma handler_exit_pinv : forall (s : state) i ph, pinv (handler_exit dstate zstate o s i ph).
+  Proof.
+    intros s i ph. rewrite handler_exit_unfold. unfold close_prompt. rewrite Hfixed.
+    unfold pinv. destruct (prompt s) eqn:E; destruct ph; destruct s; cbn in *; subst; intros X; discriminate X.
+  Qed.
+
+  Lemma handler_step_pinv : forall (s : state) i a, pinv s -> pinv (fst (handler_step s i a)).
+  Proof.
+    intros s i a Hp. unfold Filter.handler_step.
+    destruct (nth_error (handlers s) i) as [ph|]; [|auto].
+    destruct a, ph; cbn [fst]; auto using handler_exit_pinv.
+    - pose proof (reset_drag_frame s) as (R1 & _). pose proof (reset_drag_prompt s) as R5.
+      unfold pinv. rewrite R1, R5. auto.
+    - destruct (transfer s); cbn [fst]; auto using handler_exit_pinv.
+      all: try (unfold pinv; destruct s; cbn; auto).
+  Qed.
+
+  Lemma step_pinv : forall (s : state) e, pinv s -> pinv (fst (step s e)).
+  Proof.
+    intros s e Hp. destruct e as [c|c| | |i|i a| |z]; cbn [Filter.step].
+    - pose proof (out_step_frame s c) as (F1 & _). unfold pinv. rewrite F1, out_step_prompt. auto.
+    - apply in_step_pinv; auto.
+    - cbn [fst]. destruct (o_drag o); auto. all: try (unfold pinv in *; destruct s; cbn in *; auto).
+    - apply hold_timer_pinv; auto.
+    - apply drag_step_pinv; auto.
+    - apply handler_step_pinv; auto.
+    - cbn [fst]. unfold pinv. destruct s; cbn. intros X; discriminate X.
+    - cbn [fst]. destruct (zmodem s); auto. all: try (unfold pinv in *; destruct s; cbn in *; auto).
+  Qed.
+
+  Theorem run_pinv : forall es (s : state), pinv s -> pinv (fst (run s es)).
+  Proof.
+    induction es as [|e es IH]; intros s Hi; cbn [Filter.run]; auto.
+    pose proof (step_pinv s e Hi) as H1. destruct (step s e) as [s1 o1]. cbn [fst] in H1.
+    pose proof (IH s1 H1) as H2. destruct (run s1 es) as [s2 o2]. exact H2.
+  Qed.
+
+  (* at rest WITHOUT any premise about the prompt: no prompt is waiting for a key; at most its
+     goroutine still has to store nil, which it does without any key (EvPromptEnd) *)
+  Theorem quiescent_idle_fixed : forall s : state, inv s -> pinv s ->
+    handlers s = [] -> drag_procs s = [] -> held s = None -> zmodem s = None -> skip_cmd s = false ->
+    prompt s <> POpen /\ idle (fst (step s EvPromptEnd)) = true.
+  Proof.
+    intros s Hi Hp Hh Hd Hb Hz Hk.
+    assert (Ht : transfer s = false).
+    { destruct Hi as (I1 & _). rewrite Hh in I1. cbn in I1. destruct (transfer s); auto; discriminate. }
+    split.
+    - intros X. apply Hp in X. congruence.
+    - cbn [Filter.step fst]. apply quiescent_idle; try (destruct s; cbn in *; auto; fail).
+      all: try (destruct Hi as (I1 & I2); split; destruct s; cbn in *; auto).
+  Qed.
+
+  Theorem after_session : forall es1 es2 (s0 s1 s2 : state) ob1 ob2,
+    idle s0 = true -> run s0 es1 = (s1, ob1) ->
+    handlers s1 = [] -> drag_procs s1 = [] -> held s1 = None -> zmodem s1 = None -> skip_cmd s1 = false ->
+    all_quiet (fst (step s1 EvPromptEnd)) es2 = true -> run (fst (step s1 EvPromptEnd)) es2 = (s2, ob2) ->
+    prompt s1 <> POpen /\
+    idle (fst (step s1 EvPromptEnd)) = true /\
+    term_writes ob2 = out_chunks _ es2 /\
+    concat (server_writes ob2) ++ held_bytes s2 = concat (in_chunks _ es2) /\
+    calm s2.
+  Proof.
+    intros es1 es2 s0 s1 s2 ob1 ob2 H0 Hr1 Hh Hd Hb Hz Hk Hq Hr2.
+    assert (Hi : inv s1).
+    { pose proof (run_inv es1 s0 (idle_inv s0 H0)) as X. rewrite Hr1 in X. exact X. }
+    assert (Hp : pinv s1).
+    { assert (P0 : pinv s0).
+      { unfold pinv. apply idle_calm in H0. destruct H0 as ((_ & _ & P & _) & _). rewrite P. discriminate. }
+      pose proof (run_pinv es1 s0 P0) as X. rewrite Hr1 in X. exact X. }
+    destruct (quiescent_idle_fixed s1 Hi Hp Hh Hd Hb Hz Hk) as (Q1 & Q2).
+    destruct (idle_calm _ Q2) as (Hc & Hb').
+    destruct (run_calm es2 _ s2 ob2 Hc Hq Hr2) as (C & T & S).
+    split; [exact Q1|split; [exact Q2|split; [exact T|split; [|exact C]]]].
+    unfold Filter.held_bytes in S at 2. rewrite Hb' in S. exact S.
+  Qed.
 End FilterProofs.
 
 (* ------------------------------------------------------------------------------------ *)
@@ -921,7 +1127,7 @@ End FilterProofs.
 
 Definition opts_but_osc52 (o : opts) (v : bool) : opts :=
   {| o_drag := o_drag o; o_trace := o_trace o; o_zmodem := o_zmodem o; o_osc52 := v;
-     o_cmd := o_cmd o; o_cmd_not_trz := o_cmd_not_trz o |}.
+     o_cmd := o_cmd o; o_cmd_not_trz := o_cmd_not_trz o; o_fixed := o_fixed o |}.
 
 Definition no_clip (l : list obs) : list obs :=
   filter (fun x => match x with Clip _ => false | _ => true end) l.
@@ -1049,7 +1255,7 @@ Section OscInert.
     all: destruct a as [transfer0 zmodem0 prompt0 prompts0 trace_on0 interrupting0 skip_cmd0 cur_cmd0 osc0 detect_on0
                          dragging0 drag_has_dir0 drag_files0 held0 det0 drag_procs0 handlers0].
     - unfold Filter.in_step, Filter.drag_verdict, add_drag, reset_drag, opts_but_osc52. unf_sets. cbn -[osc_eq no_clip].
-      destruct prompt0; [split; reflexivity|].
+      destruct prompt0; [|split; reflexivity|split; reflexivity].
       destruct transfer0; [destruct (is_stop_key c && prompts0); split; reflexivity|].
       destruct (o_zmodem o), zmodem0, detect_on0, held0, (list_eqb c [drag_interrupt_byte]); cbn -[osc_eq no_clip].
       all: repeat (bm; cbn -[osc_eq no_clip]); split; reflexivity.
@@ -1061,9 +1267,9 @@ Section OscInert.
     - unfold Filter.drag_step, Filter.drag_command, reset_drag, opts_but_osc52. unf_sets. cbn -[osc_eq no_clip].
       destruct (nth_error drag_procs0 i) as [[| |]|]; cbn -[osc_eq no_clip]; [destruct dragging0| |destruct dragging0|];
         cbn -[osc_eq no_clip]; split; reflexivity.
-    - unfold Filter.handler_step, handler_exit, reset_drag. unf_sets. cbn -[osc_eq no_clip].
+    - unfold Filter.handler_step, handler_exit, reset_drag, opts_but_osc52. unf_sets. cbn -[osc_eq no_clip].
       destruct (nth_error handlers0 i) as [ph|]; [|split; reflexivity].
-      destruct x, ph, transfer0, dragging0; cbn -[osc_eq no_clip]; split; reflexivity.
+      destruct x, ph, transfer0, dragging0, (o_fixed o), prompt0; cbn -[osc_eq no_clip]; split; reflexivity.
     - cbn -[osc_eq no_clip]. split; reflexivity.
     - cbn -[osc_eq no_clip]. destruct zmodem0; split; reflexivity.
   Qed.
